@@ -50,19 +50,32 @@ def run(cmd, cwd=None, env=None, input=None, timeout=None, check=False):
     return p
 
 
-def build_go(name, srcdir):
+HARNESS_BASE = ["main.go", "prng.go", "util.go", "vir.go", "irgen.go"]
+
+
+def build_go(name, srcdir, files=None, tag=None):
     """Build /verif/<srcdir>/*.go as package cmd/<name> *inside the cog module* via -overlay.
-    /repo is not touched; the binary is rebuilt from /repo's current working tree."""
+    /repo is not touched; the binary is rebuilt from /repo's current working tree.
+    `files` (glob patterns relative to srcdir) scopes the build to what one check needs, so that
+    another property's half-written harness file cannot break it; `tag` names the binary."""
     os.makedirs(BIN, exist_ok=True)
-    with Lock("gobuild-" + name):
+    binname = name + ("-" + tag if tag else "")
+    with Lock("gobuild-" + binname):
         rep = {}
-        for f in sorted(glob.glob(os.path.join(VERIF, srcdir, "*.go"))):
-            rep[os.path.join(REPO, "cmd", name, os.path.basename(f))] = f
-        ov = os.path.join(WORK, "overlay-%s.json" % name)
+        if files is None:
+            paths = sorted(glob.glob(os.path.join(VERIF, srcdir, "*.go")))
+        else:
+            paths = []
+            for pat in files:
+                paths += glob.glob(os.path.join(VERIF, srcdir, pat))
+            paths = sorted(set(paths))
+        for f in paths:
+            rep[os.path.join(REPO, "cmd", binname, os.path.basename(f))] = f
+        ov = os.path.join(WORK, "overlay-%s.json" % binname)
         with open(ov, "w") as fh:
             json.dump({"Replace": rep}, fh)
-        out = os.path.join(BIN, name)
-        p = run(["go", "build", "-overlay", ov, "-o", out, "./cmd/" + name], cwd=REPO, env=GOENV)
+        out = os.path.join(BIN, binname)
+        p = run(["go", "build", "-overlay", ov, "-o", out, "./cmd/" + binname], cwd=REPO, env=GOENV)
         if p.returncode != 0:
             return None, p.stderr
         return out, ""
